@@ -469,6 +469,15 @@ pub fn storage(ctx: &GenCtx, rng: &mut Rng, run: u64) -> Option<Plan> {
             // key file of another hash (wrong n)
             let foreign = model::prv_blob(&params, 0, &plan.keys[1].seed.clone());
             probe(&mut plan, PrvFault::Replace { bytes: foreign }, rng);
+            // a well-formed key file whose parameter bytes add up to a total height of 64 and more (several
+            // bytes have to combine for that; no single-byte corruption of a small key gets there): every
+            // query must still answer without arithmetic failure.  Affordable for the 16-byte SHA-256 only.
+            if hash == HashId::Sha256_128 && in_build_limits(&vec![(4, 10); 7]) {
+                for c in [0u64, 5] {
+                    let tall = model::prv_blob(&vec![(4, 10); 7], c, &plan.keys[0].seed.clone());
+                    probe(&mut plan, PrvFault::Replace { bytes: tall }, rng);
+                }
+            }
             plan.note = "enumerated: parameter-list lengths 0..10, key lengths 0..100 and over-long ones up to 1 MiB, wiped/exhausted/foreign keys, boundary counters".into();
         }
         1..=4 => {
